@@ -207,6 +207,13 @@ func runC03(ctx *Ctx) *Report {
 				c := newCase("rootout")
 				c.Tree, c.Fmt, c.Alias = enc, fm, alias
 				cases = append(cases, c)
+				// a writer that fails at its k-th call (or accepts fewer bytes): the From-Root function reports
+				// it like its From-Markdown counterpart, and nothing more is written
+				c.WFail = i % (t.Size() + 1)
+				if i%3 == 0 {
+					c.Short = 1
+				}
+				cases = append(cases, c)
 				c = newCase("rootwalk")
 				c.Tree, c.Fmt, c.Alias = enc, fm, alias
 				cases = append(cases, c)
@@ -260,7 +267,7 @@ func runC03(ctx *Ctx) *Report {
 	if ctx.Thorough {
 		nprog = 30000
 	}
-	names := []string{"a", "b", "c", "x.go", "- d", "e f", "a", "b", "..", "x/y", "A", "X.go"}
+	names := []string{"a", "b", "c", "x.go", "- d", "e f", "a", "b", "..", "x/y", "A", "X.go", "a ", " a", "b\t", " e f "}
 	spellings := coveringSpellings()
 	for k := 0; k < nprog; k++ {
 		c := relC03{Kind: "c03-rel", Root: "root", Fmt: formats[k%len(formats)], Sp: spellings[k%len(spellings)]}
@@ -270,6 +277,9 @@ func runC03(ctx *Ctx) *Report {
 		nops := 1 + ctx.Rng.Intn(9)
 		for j := 0; j < nops; j++ {
 			c.Ops = append(c.Ops, addOp{Parent: ctx.Rng.Intn(j + 1), Name: names[ctx.Rng.Intn(len(names))]})
+			if strings.HasPrefix(c.Ops[j].Name, " ") {
+				c.Sp.NoSpace = false // "-" + " a" would spell the name "a"
+			}
 		}
 		rels = append(rels, c)
 	}
